@@ -94,6 +94,9 @@ pub mod pattern;
 mod prefilter;
 mod score;
 mod utf32_str;
+#[cfg(nucleo_verif)]
+#[allow(missing_docs)]
+pub mod verif;
 
 #[cfg(test)]
 mod tests;
